@@ -156,7 +156,7 @@ impl Evidence {
         let _ = std::fs::write(&path, serde_json::to_string_pretty(&doc).unwrap());
         if first {
             crate::out::line(&format!("VIOLATION property={} replay={}", self.property, path.display()));
-            eprintln!("  {}: {}", sig, what);
+            crate::out::err(&format!("  {}: {}", sig, what));
         }
         if self.violations.len() < 50 {
             self.violations.push(json!({"what": what, "signature": sig, "replay": path.display().to_string()}));
@@ -196,6 +196,73 @@ impl Evidence {
         });
         let _ = std::fs::create_dir_all("/verif/evidence");
         std::fs::write(format!("/verif/evidence/{}.json", self.property), serde_json::to_string_pretty(&doc).unwrap())
+    }
+
+    /// Write this evidence in a mergeable form (for checks split over child processes).
+    pub fn write_partial(&self, path: &str) -> std::io::Result<()> {
+        let doc = json!({
+            "evaluations": self.evaluations,
+            "nontrivial": self.nontrivial.iter().collect::<Vec<_>>(),
+            "labels": self.labels,
+            "samples": self.samples,
+            "excluded": self.excluded,
+            "known_findings": self.known_findings,
+            "violations": self.violations,
+            "infra": self.infra,
+            "extra": self.extra,
+        });
+        std::fs::write(path, doc.to_string())
+    }
+
+    /// Merge a file written by `write_partial`.
+    pub fn merge_partial(&mut self, path: &str) -> bool {
+        let v: Value = match std::fs::read_to_string(path).ok().and_then(|s| serde_json::from_str(&s).ok()) {
+            Some(v) => v,
+            None => return false,
+        };
+        self.evaluations += v["evaluations"].as_u64().unwrap_or(0);
+        for h in v["nontrivial"].as_array().cloned().unwrap_or_default() {
+            if let Some(h) = h.as_u64() {
+                self.nontrivial.insert(h);
+            }
+        }
+        if let Some(m) = v["labels"].as_object() {
+            for (k, n) in m {
+                *self.labels.entry(k.clone()).or_insert(0) += n.as_u64().unwrap_or(0);
+            }
+        }
+        for s in v["samples"].as_array().cloned().unwrap_or_default() {
+            if self.samples.len() < self.max_samples + 6 {
+                self.samples.push(s);
+            }
+        }
+        if let Some(m) = v["excluded"].as_object() {
+            for (k, n) in m {
+                *self.excluded.entry(k.clone()).or_insert(0) += n.as_u64().unwrap_or(0);
+            }
+        }
+        for k in v["known_findings"].as_array().cloned().unwrap_or_default() {
+            if let Some(k) = k.as_str() {
+                if !self.known_findings.iter().any(|x| x == k) {
+                    self.known_findings.push(k.to_string());
+                }
+            }
+        }
+        for x in v["violations"].as_array().cloned().unwrap_or_default() {
+            self.violations.push(x);
+        }
+        for x in v["infra"].as_array().cloned().unwrap_or_default() {
+            if let Some(x) = x.as_str() {
+                self.infra.push(x.to_string());
+            }
+        }
+        if let Some(m) = v["extra"].as_object() {
+            for (k, x) in m {
+                self.extra.insert(k.clone(), x.clone());
+            }
+        }
+        let _ = std::fs::remove_file(path);
+        true
     }
 
     /// Exit code for the run: 1 if any violation, 2 if nothing but infrastructure trouble, else 0.
